@@ -71,6 +71,8 @@ func scenarios(tier string) []svc.Scenario {
 		// a client reads converter output through a view that was opened before an import extended the stream
 		{Name: "converter-data-through-held-view", Converter: true, Program: []string{"import:P1", "addtag:tag/p=cport:1", "view.open:v1", "converters:tag/p=conv", "import:P3", "view.data:v1=0/conv"}},
 		// a tag that uses a mark list inside a sub-query: a mark edit changes its answer for OTHER streams than the marked ones
+		// one call that names a capture twice, on an idle service
+		{Name: "same-capture-twice-in-one-call", Program: []string{"import:P1+P1", "view.open:v1", "import:P2"}},
 		// a period in which the importer cannot save its reassembly snapshots
 		{Name: "snapshot-directory-gone-for-a-while", Program: []string{"import:P1", "fault:snapdir-gone", "import:P2", "fault:snapdir-back", "import:P3", "import:P4"}},
 		{Name: "subquery-mark-tag", Program: []string{"import:P1+P2", "addtag:mark/m=id:0", "addtag:tag/t=@sub:mark:m id:@sub:id@+1", "markadd:mark/m=1", "markdel:mark/m=0"}},
